@@ -23,7 +23,7 @@ def lparen : Token := tok .bracket "("
 def rparen : Token := tok .bracket ")"
 def comma : Token := tok .operator ","
 def colon : Token := tok .operator ":"
-def quest : Token := tok .operator "?"
+def questAt (l : Loc) : Token := tok .operator "?" l
 
 def wrap : Nat → List Token → List Token
   | 0, b => b
@@ -106,9 +106,9 @@ def body : List Nat → Nat → Token → Node → List Token
     let o := tok .operator "matches" mt.loc
     parenthesize (pc (0 :: π)) (needParens cfg (lprec qa.1 qa.2) o l) (fun m' fw' => body (0 :: π) m' fw' l) (lprec qa.1 qa.2) o
       ++ o :: parenthesize (pc (1 :: π)) (needParens cfg (rprec qa.1 qa.2) fw r) (fun m' fw' => body (1 :: π) m' fw' r) (rprec qa.1 qa.2) fw
-  | π, _, fw, .cond _ c a b =>
-    parenthesize (pc (0 :: π)) (needParens cfg 0 quest c) (fun m' fw' => body (0 :: π) m' fw' c) 0 quest
-      ++ quest :: (parenthesize (pc (1 :: π)) (needParens cfg 0 colon a) (fun m' fw' => body (1 :: π) m' fw' a) 0 colon
+  | π, _, fw, .cond mt c a b =>
+    parenthesize (pc (0 :: π)) (needParens cfg 0 (questAt mt.loc) c) (fun m' fw' => body (0 :: π) m' fw' c) 0 (questAt mt.loc)
+      ++ questAt mt.loc :: (parenthesize (pc (1 :: π)) (needParens cfg 0 colon a) (fun m' fw' => body (1 :: π) m' fw' a) 0 colon
       ++ colon :: parenthesize (pc (2 :: π)) (needParens cfg 0 fw b) (fun m' fw' => body (2 :: π) m' fw' b) 0 fw)
   | π, _, _, .prop mt x name s =>
     wrapBase (pc (0 :: π)) (baseBare pc (0 :: π) true s x) (fun m' fw' => body (0 :: π) m' fw' x)
@@ -228,7 +228,7 @@ def canon (d : Nat) : Node → Bool
       | _, _ => false)
   | .closure _ _ => false
   | .pointer m => inv m && decide (0 < d)
-  | .cond m c a b => decide (m = {}) && canon d c && canon d a && canon d b
+  | .cond m c a b => inv m && canon d c && canon d a && canon d b
   | .array m xs => inv m && canonList d xs
   | .map m ps => inv m && canonPairs d m.loc ps
   | .pair _ _ _ => false
